@@ -89,8 +89,13 @@ def lexer(raw: str) -> _LEX_STREAM:
     if is_string:
         raise MesonException(f'Unterminated string in cfg expression: {raw}')
     val = raw[start:]
-    if val:
-        # This should always be an identifier
+    if val == 'any':
+        yield (TokenType.ANY, None)
+    elif val == 'all':
+        yield (TokenType.ALL, None)
+    elif val == 'not':
+        yield (TokenType.NOT, None)
+    elif val:
         yield (TokenType.IDENTIFIER, val)
 
 
